@@ -12,6 +12,8 @@ use std::sync::atomic::{AtomicU64, Ordering::Relaxed};
 
 pub static CUR_RUN: AtomicU64 = AtomicU64::new(0);
 pub static CUR_STEP: AtomicU64 = AtomicU64::new(0);
+/// expected panics are being caught outside a tracked region (F7 builds its shared values that way)
+pub static QUIET: std::sync::atomic::AtomicBool = std::sync::atomic::AtomicBool::new(false);
 
 // ------------------------------------------------------------------ panic capture
 #[derive(Clone, Copy)]
@@ -115,7 +117,7 @@ pub fn install_panic_hook() {
             }
             rec.line = loc.line();
         }
-        if !simalloc::tracking() || std::env::var_os("DSIM_DEBUG").is_some() {
+        if (!simalloc::tracking() && !QUIET.load(Relaxed)) || std::env::var_os("DSIM_DEBUG").is_some() {
             // not inside a simulated call: a bug of the simulator itself, say so loudly
             eprintln!("dsim: harness panic at {}:{}: {}", rec.file(), rec.line, rec.msg());
         }
